@@ -1126,7 +1126,7 @@ package psatoken
 //@ bounded[C01,C11,C14] value-rules : byte-string lengths 0..80 through every validator, setter and getter of both profiles and of the component; 600 strings in the single-edit neighbourhood (insertion / substitution / deletion over 10 characters incl. newline and a non-ASCII letter) of three valid certification references through both regular expressions, setters and getters; all 2^16 lifecycle values through the state mapping, names, validator and (sampled) setters -- against oracles written from the statement :: boundedValueRules()
 //@ bounded[C13] error-classes : every getter of an empty and of a malformed claims-set of both profiles, four setter failures, component fields, a profile mismatch: exactly one of the five classes; the filter on 9 + 7 error values built by wrapping :: boundedErrorClasses()
 //@ bounded[C16] registry : re-registration under 4 taken names, a claims type without profile field, one late registration: lookups of 5 names and decoding of 2 tokens before vs after; independence of two NewClaims results; 300 repetitions of JSON dispatch of an ambiguous and of a profile-less token :: boundedRegistry()
-//@ bounded[C05] decode-no-panic : 7 valid claims-sets as CBOR, JSON and signed COSE token: every truncation, every value of each of the first 10 bytes, 11 type-swapping substitutions (null, undefined, empty array / map / string, break, tag, ...) at every position, every JSON member replaced by 11 other values or duplicated; each result decoded through every entry point and, where something is returned, validated, read through every getter, re-encoded and verified; thorough tier: all 32 sets, every value of every byte :: boundedDecodeNoPanic()
+//@ bounded[C05] decode-no-panic : 7 valid claims-sets as CBOR, JSON and signed COSE token: every truncation, every value of each of the first 10 bytes, 11 type-swapping substitutions (null, undefined, empty array / map / string, break, tag, ...) at every position, every JSON member replaced by 11 other values or duplicated; each result decoded through every entry point and, where something is returned, validated, read through every getter, re-encoded and verified; thorough tier: 16 sets, every value of each of the first 24 bytes :: boundedDecodeNoPanic()
 //@ bounded[C08] gates : 96 claims-sets (valid, damaged, extension profiles) through the seven validating entry points, compared with Validate() and the non-validating sibling (bytes, attachment, returned values) :: boundedGates()
 // Audits whose oracle is the literal statement where the codecs / the crypto are more lenient than it; each
 // failing case is named (CASE ids), so the known findings recorded for them do not hide a new one.
